@@ -7,6 +7,7 @@ import (
 	"flag"
 	"fmt"
 	"os"
+	"regexp"
 	"runtime"
 	"sort"
 	"strconv"
@@ -37,6 +38,57 @@ type program struct {
 	Workers    [][]op              `json:"workers"`
 	GOMAXPROCS int                 `json:"gomaxprocs"`
 	Runs       int                 `json:"runs"`
+}
+
+// ownDocs: configurations a worker puts on a filtered registry of its own (each changes the verdict of one
+// configurable lint on suitable objects).
+var ownDocs = []string{"[w_subject_contains_html_entities]\nSkip = true\n", "[e_subj_orgunit_in_ca_cert]\nCrossCert = true\n", "[e_crl_next_update_invalid]\nSubscriberCRL = false\n",
+	"[e_rsa_fermat_factorization]\nRounds = 0\n"}
+
+var (
+	sensOnce sync.Once
+	sensObjs []engine.Case
+)
+
+// sensitiveObjects: corpus objects (and one built CRL) whose verdict under the global registry's default
+// configuration differs from the verdict under one of ownDocs - a configuration leaking into the shared
+// registry shows on them.
+func sensitiveObjects() []engine.Case {
+	sensOnce.Do(func() {
+		co := gen.LoadCorpus()
+		this := time.Date(2024, 1, 1, 0, 0, 0, 0, time.UTC)
+		next := this.Add(100 * 24 * time.Hour)
+		num := int64(1)
+		objs := append(append([]gen.Obj{}, co.Certs...), co.CRLs...)
+		objs = append(objs, gen.Obj{Name: "built-crl-100d", Kind: gen.CRL, DER: gen.BuildCRL(gen.CRLSpec{V2: true, ThisUpdate: this, NextUpdate: &next, CRLNumber: &num, AKI: true})})
+		g := lint.GlobalRegistry()
+		// one lint at a time (the configurable lint named by the document), so the scan stays cheap under the race detector
+		names := []string{"w_subject_contains_html_entities", "e_subj_orgunit_in_ca_cert", "e_crl_next_update_invalid", "e_rsa_fermat_factorization"}
+		for di, d := range ownDocs {
+			if di >= len(names) {
+				break
+			}
+			alt, err := g.Filter(lint.FilterOptions{IncludeNames: []string{names[di]}})
+			def, err2 := g.Filter(lint.FilterOptions{IncludeNames: []string{names[di]}})
+			cfg, err3 := lint.NewConfigFromString(d)
+			if err != nil || err2 != nil || err3 != nil {
+				continue
+			}
+			alt.SetConfiguration(cfg)
+			found := 0
+			for _, o := range objs {
+				if found >= 3 {
+					break
+				}
+				c := engine.Case{Kind: o.Kind, DER: o.DER, Base: o.Name}
+				if lintOne(c, def) != lintOne(c, alt) {
+					found++
+					sensObjs = append(sensObjs, c)
+				}
+			}
+		}
+	})
+	return sensObjs
 }
 
 func lintOne(c engine.Case, reg lint.Registry) string {
@@ -147,6 +199,29 @@ func runProgram(p program) (sig, msg string) {
 								}
 							} else if r2 != nil {
 								_ = r2.Names()
+							}
+						}
+					case "ownfilter":
+						// a registry of one's own - Filter with non-empty options, some of which select every
+						// lint - may be reconfigured at will: it is private to this worker
+						var fo lint.FilterOptions
+						switch o.Obj % 4 {
+						case 0:
+							fo.IncludeSources = reg.Sources()
+						case 1:
+							fo.NameFilter = regexp.MustCompile("_")
+						case 2:
+							fo.ExcludeNames = []string{"e_ca_country_name_missing"}
+						default:
+							fo.IncludeNames = reg.Names()
+						}
+						if fo.Empty() {
+							break // empty options hand back the shared registry itself (documented): nothing of one's own
+						}
+						if r2, err := reg.Filter(fo); err == nil && r2 != nil {
+							if cfg, err := lint.NewConfigFromString(ownDocs[o.Obj%len(ownDocs)]); err == nil {
+								r2.SetConfiguration(cfg)
+								_ = lintOne(p.Objects[o.Obj%len(p.Objects)], r2)
 							}
 						}
 					case "names":
@@ -291,6 +366,13 @@ func TestC10(t *testing.T) {
 					p.Objects = append(p.Objects, engine.Case{Kind: o.Kind, DER: o.DER, Base: o.Name})
 				}
 			}
+			// a few objects whose verdict depends on a configurable lint's option
+			if so := sensitiveObjects(); len(so) > 0 {
+				for i, n := 0, rapid.IntRange(1, 3).Draw(rt, "nsens"); i < n; i++ {
+					p.Objects = append(p.Objects, so[rapid.IntRange(0, len(so)-1).Draw(rt, "sens")])
+				}
+				nobj = len(p.Objects)
+			}
 			G := rapid.IntRange(2, 16).Draw(rt, "goroutines")
 			linters, others := 0, 0
 			for w := 0; w < G; w++ {
@@ -303,7 +385,7 @@ func TestC10(t *testing.T) {
 					if isLint {
 						o.Kind, o.Obj = "lint", rapid.IntRange(0, nobj-1).Draw(rt, "obj")
 					} else {
-						o.Kind = rapid.SampledFrom([]string{"filter", "names", "sources", "byname", "bysource", "lints", "writejson", "getconfig", "defaultconfig"}).Draw(rt, "other")
+						o.Kind = rapid.SampledFrom([]string{"filter", "names", "sources", "byname", "bysource", "lints", "writejson", "getconfig", "defaultconfig", "ownfilter", "ownfilter"}).Draw(rt, "other")
 						o.Obj = rapid.IntRange(0, len(p.Filters)-1).Draw(rt, "fidx")
 						o.Name = names[rapid.IntRange(0, len(names)-1).Draw(rt, "name")]
 					}
